@@ -8,7 +8,24 @@ mutable class-level default.  After every operation
     object is reachable from two roots (instance/instance or default/instance) - except between the two
     instances of an update_from_other_container, which the statement's quantifier does not cover;
   * the sharing graph (id() of every reachable nested mutable object, numbered in order of first visit) is
-    compared with the one computed by the Coq model Alias.Model.run_case (vm_compute)."""
+    compared with the one computed by the Coq model Alias.Model.run_case (vm_compute).
+The histories contain IN-PLACE list operations (append / pop / clear: model OMut) and a constructor that stores the
+object of a mutable default argument is described to the model as XArg (the repaired configuration says: never).
+
+Streams `alias-ctor`, `alias-sep`, `alias-mdib` (harness/impl/c12b_impl.py) judge object identity directly, for
+EVERY class of xml_types / containers (no model needed, so they also see what the model abstracts away: lxml
+elements, the observable `node`, attributes outside _props):
+  * alias-ctor: all instances obtained through __init__ (no argument / each optional argument / subsets / with
+    descriptor / from_node of the own serialisation, with and without child elements / factories) stay alive in one
+    registry id(object) -> owner; a mutable object reachable from two roots (instances, class defaults,
+    default-argument objects of functions) is a finding; every reachable mutable object of an instance is then
+    mutated in place and after each single mutation all other live instances, newly constructed ones and all class
+    defaults must have kept their value; at the end cls() of every class equals its value at process start;
+  * alias-sep: b = op(a) for mk_copy / mk_copy(copy_node) / deepcopy / copy.copy (top level only) / from_node
+    (same document twice, two documents) / update_from_node / update_from_other_container on populated instances:
+    no mutable object in common at any depth (path reported), in-place mutation of either side invisible in
+    the other;
+  * alias-mdib: entity getters and entity.update() of a ProviderMdib against the containers inside the mdib."""
 import json
 
 from lib import Raw, coqlit  # noqa: F401
@@ -45,6 +62,8 @@ def gen_case(rng, direct, carriers, max_ops, n):
             ops.append(['deepcopy', a, 0, 0])
         elif r < 0.62 and cont:
             ops.append(['update', a, b, 0])
+        elif r < 0.80:
+            ops.append(['mutate', a, b, rng.choice([0, 0, 0, 1, 2])])
         else:
             ops.append(['write', a, b, 1 if rng.random() < 0.85 else 0])
     return {'cls': cls, 'seed': rng.randrange(1 << 30), 'ops': ops}
@@ -62,6 +81,8 @@ def lit_x(x):
         return f'XImm {x[1]}'
     if x[0] == 'D':
         return f'XDefault {x[1]}%nat'
+    if x[0] == 'A':
+        return f'XArg {x[1]}%nat'
     return 'XNode [' + '; '.join(lit_x(y) for y in x[1]) + ']'
 
 
@@ -79,6 +100,9 @@ def lit_op(o):
         return f'OUpdate {o[1]}%nat {o[2]}%nat [' + '; '.join('None' if z is None else f'Some {z}' for z in o[3]) + ']'
     if k == 'write':
         return f'OWrite {o[1]}%nat [' + '; '.join(f'{i}%nat' for i in o[2]) + f'] {o[3]}%nat {o[4]}'
+    if k == 'mutate':
+        m = {'append': f'(MAppend {o[4]})', 'pop': 'MPop', 'clear': 'MClear'}[o[3]]
+        return f'OMut {o[1]}%nat [' + '; '.join(f'{i}%nat' for i in o[2]) + f'] {m}'
     raise ValueError(k)
 
 
@@ -107,7 +131,7 @@ def oracle(tr):
     for i, op in enumerate(ops, start=1):
         if op[0] == 'update':
             link[find(op[1])] = find(op[2])
-        target = op[1] if op[0] in ('write', 'update') else None
+        target = op[1] if op[0] in ('write', 'update', 'mutate') else None
         via = origin[target] if target is not None else op[0]
         if tr['dflt'][i] != tr['dflt'][i - 1]:
             out.append((i, 'class default changed', via, 'a _default_py_value of the library changed its value'))
@@ -138,6 +162,36 @@ def judge(ctx, case, tr):
                   'shared_after_step': tr['shared'][step]})
 
 
+def identity_streams(ctx):
+    """alias-ctor / alias-sep / alias-mdib: findings of c12b_impl become oracle failures"""
+    request = {'seed': ctx.rng.randrange(1 << 30), 'ctor_rounds': ctx.n(2, 8), 'sep_rounds': ctx.n(1, 8)}
+    res = ctx.impl('c12b_impl', request, timeout=2400)
+    if res.get('_crash'):
+        ctx.broken('correspondence', 'alias-ctor / alias-sep / alias-mdib (implementation run)', res['stderr'])
+        return
+    for stream, part, unit in (('alias-ctor', 'ctor', 'instances'), ('alias-sep', 'sep', 'pairs'), ('alias-mdib', 'mdib', 'pairs')):
+        r = res.get(part) or {'crash': 'stream missing in the output'}
+        if 'crash' in r:
+            ctx.broken('correspondence', f'{stream} (implementation run)', r['crash'])
+            continue
+        for f in r['findings']:
+            sig = {'stream': stream, 'clause': f['clause'], 'op': f['op']}
+            if f.get('kind'):
+                sig['kind'] = f['kind']
+            ctx.fail(f'{stream}: {f["clause"]}' + (f' ({f["kind"]})' if f.get('kind') else '') + f': {f["detail"]}',
+                     sig, {'stream': stream, 'class': f['cls'], 'path': f['path'], 'request': dict(request, only=[f['cls']]),
+                           'finding': f['replay'], 'classes_with_this_finding': len(
+                               [k for k in r['finding_counts'] if k.startswith(
+                                   f['clause'] + (': ' + f['kind'] if f.get('kind') else '') + ' | ' + f['op'] + ' | ')])})
+        hist = dict(r['hist'])
+        ctx.count(stream, hist.get(unit, 0), r.get('keys', []), histogram=hist,
+                  findings=len(r['findings']), classes=res.get('n_classes'))
+    if res.get('opaque_types'):
+        ctx.log(f'alias streams: objects of unknown mutability not followed: {res["opaque_types"]}')
+    ctx.sample({'stream': 'alias-ctor/alias-sep/alias-mdib', 'request': request,
+                'ctor_hist': json.dumps((res.get('ctor') or {}).get('hist'))[:600]})
+
+
 def run(ctx):
     proof_ok = ctx.prove()
     if not proof_ok:
@@ -157,7 +211,8 @@ def run(ctx):
         return ctx.finish('implementation run crashed', [], [])
     traces = impl['traces']
     hist = {'new': 0, 'parse': 0, 'parse_with_absent_default': 0, 'copy': 0, 'deepcopy': 0, 'update': 0, 'write': 0,
-            'nested_write': 0, 'skip': 0, 'template_retries': 0}
+            'nested_write': 0, 'mutate': 0, 'mutate_append': 0, 'mutate_pop': 0, 'mutate_clear': 0, 'skip': 0,
+            'template_retries': 0}
     lits, good = [], []
     classes_hit = set()
     for c, tr in zip(cases, traces):
@@ -168,6 +223,8 @@ def run(ctx):
             hist[o[0]] += 1
             hist['parse_with_absent_default'] += o[0] == 'parse' and o[2] > 0
             hist['nested_write'] += o[0] == 'write' and len(o[2]) > 0
+            if o[0] == 'mutate':
+                hist['mutate_' + o[3]] += 1
         hist['template_retries'] += len(tr['notes'])
         classes_hit.add(c['cls'])
         judge(ctx, c, tr)
@@ -190,34 +247,60 @@ def run(ctx):
         c, tr = good[0]
         ctx.sample({'stream': 'alias-types', 'case': c, 'resolved_ops': json.dumps(tr['ops'])[:1500],
                     'final_observation_tokens': len(tr['obs'][-1])})
+    identity_streams(ctx)
     if ctx.thorough:
         hits = ctx.gate_grep(['Alias', 'Common'])
         if hits:
             ctx.broken('theorem', 'grep gate', hits)
         ctx.coqchk('SDC.Props.C12')
     return ctx.finish(
-        rule='for every class with (or containing) a member that has a mutable class-level default: random histories of '
-             'cls() / from_node(XML with defaulted members removed) / mk_copy / copy.deepcopy / update_from_other_container / '
-             'nested scalar writes; after every operation the id()-sharing graph of all defaults and instances is compared '
+        rule='alias-types: for every class with (or containing) a member that has a mutable class-level default (or a '
+             'mutable default argument): random histories of cls() / from_node(XML with defaulted members removed) / '
+             'mk_copy / copy.deepcopy / update_from_other_container / nested scalar writes / in-place list append, pop, '
+             'clear; after every operation the id()-sharing graph of all defaults and instances is compared '
              'with the Coq heap model (run_case fixed, vm_compute) and the oracle checks defaults, cls() and all '
              'non-target instances unchanged and no mutable object reachable from two roots; distinct = distinct '
-             'observation sequences',
+             'observation sequences.  alias-ctor / alias-sep / alias-mdib: for EVERY class, object identity judged '
+             'directly: pairwise sharing among all live instances, class defaults and default-argument objects after '
+             'construction through every constructor variant; after mk_copy / deepcopy / from_node / update_from_node / '
+             'update_from_other_container / entity getter / entity.update no common mutable object at any depth; after '
+             'every single in-place mutation of every reachable mutable object all other values unchanged',
         assumptions=['the model is the REPAIRED code (fixes/C12_parse_default, fixes/C12_mk_copy); C12_parse_refuted / '
                      'C12_mkcopy_refuted state what the unrepaired code does',
-                     'update_from_other_container keeps sharing one level below the copied values (update_shares); '
-                     'C12_instances_independent therefore quantifies over histories without it and the oracle exempts '
-                     'exactly the pair (dst, src) of an update',
+                     'update_from_other_container keeps sharing one level below the copied values (C12_update_refuted, '
+                     'proposed known finding fixes/C12_known.json): C12_instances_independent quantifies over histories '
+                     'without it, C12_instances_independent_if_update_deep shows what a deep copy would give; the '
+                     'alias-types oracle exempts the pair (dst, src) of an update, alias-sep / alias-mdib report it '
+                     '(kind = nested objects below the copied member values)',
+                     'arg_fresh = true (no constructor stores a mutable default-argument object): measured by '
+                     'alias-ctor on every run (mutable_default_arguments, registry of default-argument objects)',
                      'immutable values (str, int, Decimal, enum, QName, None) are abstracted to integers; lxml elements '
                      'are mutable leaf objects'],
         trusted_base=['correspondence harness harness/impl/c12_impl.py + xs_lib.py + xs_gen.py (object graph read from '
                       'instance __dict__ storage slots of the declared properties)',
                       'model evaluated inside Coq with vm_compute on generated case files'],
-        not_modelled=['attributes that are not declared properties (node, descriptor_container, parent_handle) - shared by design',
-                      'writes that store a mutable object into an existing instance (model writes store immutable values)',
+        not_modelled=['Coq model: attributes that are not declared properties (node, descriptor_container, parent_handle); '
+                      'the identity streams follow them, except state.descriptor_container and the element the '
+                      'observable node points to (shared by design)',
+                      'copy.copy of a whole instance is shallow by definition: only the top-level object is required to be new',
+                      'two parses of the SAME lxml document may both reference its elements (Extension members); two '
+                      'documents must give disjoint objects',
+                      'writes / appends that store a mutable object into an existing instance (model stores immutable values)',
                       'Python garbage (objects allocated by cls() and overwritten by from_node are not observable)'])
 
 
 def replay(ctx, rep):
+    if rep.get('stream') in ('alias-ctor', 'alias-sep', 'alias-mdib'):
+        part = {'alias-ctor': 'ctor', 'alias-sep': 'sep', 'alias-mdib': 'mdib'}[rep['stream']]
+        request = dict(rep['request'], ctor=part == 'ctor', sep=part == 'sep', mdib=part == 'mdib')
+        if part == 'mdib':
+            request['only'] = None
+        res = ctx.impl('c12b_impl', request, timeout=2400)
+        found = (res.get(part) or {}).get('findings', [])
+        same = [f for f in found if f['clause'] == rep['signature']['clause'] and f['op'] == rep['signature']['op']]
+        print(json.dumps({'request': request, 'findings_with_this_signature': same[:3],
+                          'all_finding_counts': (res.get(part) or {}).get('finding_counts', res)}, indent=1)[:6000])
+        return 1 if same else 0
     case = rep.get('case')
     impl = ctx.impl('c12_impl', {'cases': [case]})
     tr = impl['traces'][0]
